@@ -156,6 +156,7 @@ pub struct Sim<'a> {
     committed: BTreeMap<u64, (u64, u64, u64)>, // index -> (term, data, first node)
     seen_history: Vec<usize>,
     last_commit: Vec<u64>,
+    last_core_commit: Vec<u64>,
     /// (index, entry term, data, term of the leader that committed it)
     leader_committed: Vec<(u64, u64, u64, u64)>,
     appended_any: bool,
@@ -217,6 +218,7 @@ impl<'a> Sim<'a> {
             committed: BTreeMap::new(),
             seen_history: vec![0; n as usize],
             last_commit: vec![0; n as usize],
+            last_core_commit: vec![0; n as usize],
             leader_committed: vec![],
             appended_any: false,
             tail_data: vec![],
@@ -661,6 +663,12 @@ impl<'a> Sim<'a> {
                 return;
             }
             self.last_commit[i] = c;
+            // ... and neither does the commit index the consensus core itself holds and advertises for this node
+            let cc = self.nodes[i].verif_local_commit();
+            if cc < self.last_core_commit[i] {
+                self.viol("C28", "commit-index-decreased", format!("node {i}: the commit index held by the consensus core went from {} to {cc}", self.last_core_commit[i]));
+            }
+            self.last_core_commit[i] = cc;
             // newly committed entries
             let hist_len = self.nodes[i].storage.committed_history.len();
             for k in self.seen_history[i]..hist_len {
